@@ -360,6 +360,17 @@ def r4_mibcopy(chk):
         ok = ok and len(rev) == 1 and norm(rev[0].value) == "datetime.strptime(%s[%s].revision, '%%Y-%%m-%%d %%H:%%M')" % (P, nv)
     chk.ob('C20.R4', 'getMibRevision/selects-the-file-just-read', ok, where(mod, fn),
            'name and revision must come from the compiled status whose path is the file read')
+    # sources are asked in the order they were added and the first hit wins: the directory of the file under
+    # inspection must come first, or a same-named file in a repository shadows it
+    adds = [c for c in walk_no_nested(fn) if isinstance(c, ast.Call) and isinstance(c.func, ast.Attribute) and
+            c.func.attr == 'addSources']
+    adds.sort(key=lambda c: (c.lineno, c.col_offset))
+    first = adds[0].args[0] if adds and adds[0].args else None
+    okf = isinstance(first, ast.Call) and dotted_name(first.func) == 'FileReader' and first.args and \
+        _key_is(first.args[0], d)
+    chk.ob('C20.R4', 'getMibRevision/own-directory-is-the-first-source', bool(okf), where(mod, adds[0]) if adds else
+           where(mod, fn), 'the first source added must be FileReader(%s, ...), found %s' % (
+               d, norm(first)[:70] if first is not None else None))
     last = fn.body[-1]
     chk.ob('C20.R4', 'getMibRevision/unreadable-raises', isinstance(last, ast.Raise), where(mod, fn), '')
     comp = [c for c in walk_no_nested(fn) if isinstance(c, ast.Call) and isinstance(c.func, ast.Attribute) and
